@@ -151,6 +151,9 @@ def run_shard(pid, tier, seed, shard, nshards, scale=1.0, only_case=None):
                     wcommon.POSITIONAL[0] = 0
             except Exception:
                 pass
+            if dump.SHARED_SIZES[0]:
+                ctx.count('size_objects_shared_inside_a_layout', dump.SHARED_SIZES[0])
+                dump.SHARED_SIZES[0] = 0
             if dump.BUILD_PROBLEMS:
                 failures = list(failures) + dump.BUILD_PROBLEMS[:2]
                 del dump.BUILD_PROBLEMS[:]
